@@ -281,3 +281,44 @@ pub fn c03_peercrypto_tick_on_rotation_tick() {
     std::mem::forget(pc);
     witness!();
 }
+
+// ===================================================================================================== C07 at PeerCrypto level
+/// The rotation cycle of a connection (every ROTATE_INTERVAL-th tick) with a pending confirmation: the pending key is
+/// installed into key slot (id mod 4) of the connection's core for RECEIVING - the sending slot does not move - and the
+/// confirmation goes out sealed under the current sending key, as a rotation message.
+fn peercrypto_cycle_installs(own_id: u64) {
+    let kbytes: [u8; 32] = kani::any();
+    let cbytes: [u8; 32] = kani::any();
+    let rot = crate::crypto::rotate::verif::pending_state(own_id, &kbytes, &cbytes);
+    let core = corev::outsider_core();
+    let mut pc: PeerCrypto<NoPayload> =
+        PeerCrypto { node_id: [1; 16], init: None, rotation: Some(rot), unencrypted: false, core: Some(core), rotate_counter: ROTATE_INTERVAL - 1 };
+    let mut out = MsgBuffer::new(100);
+    let r = okf(pc.every_second(&mut out));
+    assert!(matches!(r, Some(MessageResult::Reply)));
+    assert!(pc.rotate_counter == 0);
+    let slot = ((own_id + 2) % 4) as usize;
+    let core = pc.core.as_ref().unwrap();
+    assert!(corev::sending_slot(core) == 0);
+    let kb = corev::slot_key_bytes(core, slot);
+    let mut i = 0;
+    while i < 32 {
+        assert!(kb[i] == kbytes[i]);
+        i += 1;
+    }
+    // exactly one seal (the rotation message), under the unchanged sending key of slot 0
+    assert!(ring::aead::model_seal_count() == 1);
+    assert!(!out.is_empty() && out.message()[0] == 0);
+    std::mem::forget(pc);
+    witness!();
+}
+macro_rules! pcc_inst {
+    ($($name:ident = $id:expr),*) => {$(
+        #[cfg_attr(kani, kani::proof, kani::unwind(36))]
+        pub fn $name() {
+            peercrypto_cycle_installs($id)
+        }
+    )*};
+}
+pcc_inst!(c07_peercrypto_cycle_installs_id2 = 0, c07_peercrypto_cycle_installs_id3 = 1, c07_peercrypto_cycle_installs_id4 = 2,
+          c07_peercrypto_cycle_installs_id5 = 3, c07_peercrypto_cycle_installs_id1000 = 998);
